@@ -582,6 +582,8 @@ class Unit:
             self.bump_rules(rw.counts)
         toks = self.r10_for_ref_patterns(toks)
         toks = self.r11_lazy_static(toks)
+        toks = self.r12_unshadow(toks)
+        toks = self.r13_and_then(toks)
         for old, new in spec.get("subst", []):
             # S4: explicit, logged substitution of one expression (for constructs neither Verus nor the rules can express)
             otoks = [t.text for t in L.lex(old) if not L.is_trivia(t)]
@@ -675,6 +677,80 @@ class Unit:
                                 "contract": spec["clauses"], "file": rel, "lines": [it.first_line, it.last_line],
                                 "clauses": len(spec["clauses"]), "loop_specs": sum(len(v) for v in spec["loops"].values()),
                                 "body_tokens": len(code_toks(body))})
+
+    def r13_and_then(self, toks):
+        """R13: `RECV.and_then(|v| BODY)` with a closure literal -> `match RECV { Ok(v) => BODY, Err(e__) => Err(e__) }`
+        (the definition of Result::and_then; Verus cannot pass closures to std combinators)."""
+        out = list(toks)
+        n = len(out)
+        i = 0
+        while i < n:
+            if out[i].kind == L.IDENT and out[i].text == "and_then":
+                d = i - 1
+                while d >= 0 and L.is_trivia(out[d]):
+                    d -= 1
+                o = L.skip_trivia(out, i + 1, n)
+                if out[d].text == "." and out[o].text == "(":
+                    c = L.match_close(out, o)
+                    inner = L.skip_trivia(out, o + 1, c)
+                    if out[inner].text != "|":
+                        raise Unsupported("and_then with a non-closure argument")
+                    v = L.skip_trivia(out, inner + 1, c)
+                    bar = L.skip_trivia(out, v + 1, c)
+                    if out[v].kind != L.IDENT or out[bar].text != "|":
+                        raise Unsupported("and_then closure parameter shape")
+                    body = out[bar + 1:c]
+                    # receiver: back to the start of the expression statement
+                    r0 = d - 1
+                    depth = 0
+                    while r0 >= 0:
+                        t = out[r0]
+                        if t.kind == L.PUNCT and t.text in (")", "]", "}"):
+                            depth += 1
+                        elif t.kind == L.PUNCT and t.text in ("(", "[", "{"):
+                            if depth == 0:
+                                break
+                            depth -= 1
+                        elif depth == 0 and t.kind == L.PUNCT and t.text in (";", "="):
+                            break
+                        elif depth == 0 and t.kind == L.IDENT and t.text == "return":
+                            break
+                        r0 -= 1
+                    recv = out[r0 + 1:d]
+                    new = ([L.Tok(L.IDENT, " match ", out[i].line)] + recv + [L.Tok(L.PUNCT, " { Ok(%s) => " % out[v].text, out[i].line)] + body
+                           + [L.Tok(L.PUNCT, ", Err(e__) => Err(e__) }", out[i].line)])
+                    out = out[:r0 + 1] + new + out[c + 1:]
+                    n = len(out)
+                    self.log["rules"]["R13"] = self.log["rules"].get("R13", 0) + 1
+                    i = r0 + 1 + len(new)
+                    continue
+            i += 1
+        return out
+
+    def r12_unshadow(self, toks):
+        """R12: `let [mut] X = X.into_iter();` (a local shadowing the parameter it iterates) -> the local and all its later uses
+        are renamed X__it (alpha-conversion), so that contracts and invariants can still name the parameter."""
+        out = list(toks)
+        code = [i for i, t in enumerate(out) if not L.is_trivia(t)]
+        k = 0
+        while k + 8 < len(code):
+            ts = [out[code[k + d]].text for d in range(9)]
+            # let mut X = X . into_iter ( ) ;
+            if ts[0] == "let" and ts[1] == "mut" and ts[3] == "=" and ts[2] == ts[4] and ts[5] == "." and ts[6] == "into_iter" and ts[7] == "(" and ts[8] == ")":
+                name = ts[2]
+                new = name + "__it"
+                out[code[k + 2]] = L.Tok(L.IDENT, new, out[code[k + 2]].line)
+                for j in code[k + 10:]:
+                    if out[j].kind == L.IDENT and out[j].text == name:
+                        # not a field access `.name`
+                        pj = j - 1
+                        while pj >= 0 and L.is_trivia(out[pj]):
+                            pj -= 1
+                        if out[pj].text != ".":
+                            out[j] = L.Tok(L.IDENT, new, out[j].line)
+                self.log["rules"]["R12"] = self.log["rules"].get("R12", 0) + 1
+            k += 1
+        return out
 
     def r11_lazy_static(self, toks):
         """R11: `lazy_static! { static ref NAME: TYPE = EXPR; }` inside a body -> `let NAME: TYPE = EXPR;`
